@@ -23,7 +23,11 @@ Funding ops (stateless).  Syntax of the pieces:
 * `open <order> <matched> <tx> <hint> <env>`              → `none` | request | `err` | `panic`
 * `projask <kit> <multiSigKey> <nodeKey> <units> <env>`   → matched | `err` | `randomnonce`
 * `projbid <order b…> <multiSigKey> <nodeKey> <units> <env>`
+* `prepb <nodePubKey> <tx> <hint> <env> <k> (<order> <n> <matched>×n)×k` → whole-batch `PrepChannelFunding`:
+  `ok conns=<sorted nodes> n=<registrations> <sorted registrations>` | `err` | `panic`
+* `openb <tx> <hint> <env> <k> (<order> <n> <matched>×n)×k` → whole-batch `BatchChannelSetup`: sorted requests
 * `sidecar <nonce> <ticket>…`                             → order | `err` | `panic`
+* `offer <ticket>`                                        → `offer=<0/1>` (`Manager.OfferSidecar` accepts the offer)
 * `gate <ticket> <order b…> <bidAmt> <minUnits>`          → `gate=<0/1>` (the repaired gate)
 -/
 namespace Pool.C17
@@ -246,6 +250,64 @@ def pCall : P (Order × MatchedOrder × BatchTx × Nat × Env) := fun ts =>
   | none => none
   | some (env, ts) => some ((o, m, tx, hint, env), ts)
 
+def pRepeat {α : Type} (p : P α) : Nat → P (List α)
+  | 0 => fun ts => some ([], ts)
+  | n + 1 => fun ts =>
+    match p ts with
+    | none => none
+    | some (a, ts) =>
+      match pRepeat p n ts with
+      | none => none
+      | some (as, ts) => some (a :: as, ts)
+
+/-- `<order> <nMatches> <matched>…` -/
+def pEntry : P (Order × List MatchedOrder) := fun ts =>
+  match pOrder ts with
+  | none => none
+  | some (o, ts) =>
+  match pNat ts with
+  | none => none
+  | some (n, ts) =>
+  match pRepeat pMatched n ts with
+  | none => none
+  | some (ms, ts) => some ((o, ms), ts)
+
+/-- `<tx> <hint> <env> <k> <entry>…` -/
+def pBatchCall : P (BatchTx × Nat × Env × List (Order × List MatchedOrder)) := fun ts =>
+  match pTx ts with
+  | none => none
+  | some (tx, ts) =>
+  match pNat ts with
+  | none => none
+  | some (hint, ts) =>
+  match pEnv ts with
+  | none => none
+  | some (env, ts) =>
+  match pNat ts with
+  | none => none
+  | some (k, ts) =>
+  match pRepeat pEntry k ts with
+  | none => none
+  | some (es, ts) => some ((tx, hint, env, es), ts)
+
+def shimCols (s : Shim) : String :=
+  s!"{s.amt}:{hex s.txid}:{s.outputIndex}:{hex s.localKey}:{s.localKeyFamily}:{s.localKeyIndex}:{hex s.remoteKey}:" ++
+  s!"{s.thawHeight}:{b01 s.musig2}"
+
+def joinOrDash (sep : String) (xs : List String) : String := if xs.isEmpty then "-" else joinWith sep xs
+
+def fmtPrepOut (o : PrepOut) : String :=
+  let regs := o.regs.map fun (r : Shim × Bytes × ExpBid) =>
+    s!"{hex r.2.1}:{hex r.1.pendingChanId}:{shimCols r.1}:{hex r.2.2.nonce}:{r.2.2.selfChanBalance}:{r.2.2.channelType}:" ++
+    s!"{b01 r.2.2.unannounced}:{b01 r.2.2.zeroConf}"
+  s!"ok conns={joinOrDash "," (sortList (o.conns.map hex))} n={regs.length} {joinOrDash ";" (sortList regs)}"
+
+def fmtOpens (qs : List OpenReq) : String :=
+  let es := qs.map fun (q : OpenReq) =>
+    s!"{hex q.shim.pendingChanId}:{hex q.nodePubkey}:{q.localFundingAmount}:{q.pushSat}:{q.commitmentType}:" ++
+    s!"{b01 q.isPrivate}:{b01 q.zeroConf}:{shimCols q.shim}"
+  s!"ok n={es.length} {joinOrDash ";" (sortList es)}"
+
 def fundingStep (args : List String) : String :=
   match args with
   | "derive" :: ts =>
@@ -274,6 +336,17 @@ def fundingStep (args : List String) : String :=
           s!"ok node={hex q.nodePubkey} lfa={q.localFundingAmount} push={q.pushSat} ct={q.commitmentType} " ++
           s!"priv={b01 q.isPrivate} zc={b01 q.zeroConf} " ++ fmtShim q.shim)
         (batchChannelSetup env o m tx hint)
+    | _ => "bad-op"
+  | "prepb" :: ts =>
+    match pHex ts with
+    | some (npk, ts) =>
+      match pBatchCall ts with
+      | some ((tx, hint, env, es), []) => fmtRes fmtPrepOut (prepBatch env npk es tx hint)
+      | _ => "bad-op"
+    | none => "bad-op"
+  | "openb" :: ts =>
+    match pBatchCall ts with
+    | some ((tx, hint, env, es), []) => fmtRes fmtOpens (setupBatch env es tx hint)
     | _ => "bad-op"
   | "projask" :: ts =>
     match pKit ts with
@@ -314,6 +387,10 @@ def fundingStep (args : List String) : String :=
       | some tks => fmtRes (fun o => "ok " ++ fmtOrder o) (getSidecarAsOrder tks n)
       | none => "bad-op"
     | _, _ => "bad-op"
+  | ["offer", t] =>
+    match parseTicket t with
+    | some (some tk) => s!"offer={b01 (offerSidecarOK tk.offer)}"
+    | _ => "bad-op"
   | "gate" :: t :: ts =>
     match parseTicket t, pOrder ts with
     | some (some tk), some (.bid b, [amt, mu]) =>
